@@ -21,7 +21,8 @@ What they exclude is exactly what the code gets wrong (or what needs context):
 * (literal strings: nothing any more — CR is written `\r` since the CR repair; before, a raw CR
   was read as LF by the independent reader: `NoCR`, `escapePdfStringRawCR`);
 * an integer that the *following bytes* turn into an indirect reference
-  (`Spec.refAhead` / the library's `Integer Integer R` look-ahead, which also takes the name `/R`);
+  (`Spec.refAhead` / the library's `Integer Integer R` look-ahead — since the repair of C09-F3
+  only a bare `R`, no longer the name `/R`);
 * integers (`Object::Integer`) outside `i64` — not constructible — and non-decimal real tokens
   (non-finite reals).  A real written as an integer token outside `i64` is read by the library
   as a real carrying that token (`readBackLib`; before the repair of C09-F4: an error).
@@ -137,7 +138,7 @@ def libIntFollowOk (rest : List Nat) : Bool :=
     if 0 ≤ g && g ≤ 65535 then
       match Lexer.next rest2 with
       | .error _ => false
-      | .ok (.name [82], _) => false
+      | .ok (.name [82], _) => !Lexer.bareRAhead rest2
       | .ok _ => true
     else true
   | .ok _ => true
